@@ -2,7 +2,7 @@
 From Coq Require Import List NArith ZArith Bool.
 From GoPdf.Base Require Import Bytes Res.
 From GoPdf.Gen Require Import Gen_C06 Gen_C06ccitt2d.
-From GoPdf.C06 Require Import Machine MachineProofs AHx A85 RunLen LZW Predict Chain FilterParams Conform CCITT CCITTTables CCITTProofs CCITT2DProofs
+From GoPdf.C06 Require Import Machine MachineProofs AHx A85 RunLen LZW Predict Chain FilterParams Conform CCITT CCITTTables CCITTProofs CCITT2D CCITT2DProofs
   AHxProofs A85Proofs RunLenProofs LZWCodeProofs LZWBitProofs PredictProofs ChainProofs FilterParamsProofs.
 Import ListNotations.
 
@@ -187,3 +187,21 @@ Theorem g4_full_run_rt : forall white cols n tail r rb,
   exists r' rb', decode_full_run cols white r = (n, r') /\ good r' rb' /\ real r' rb' = tail.
 Proof. exact decode_full_run_rt. Qed.
 Print Assumptions g4_full_run_rt.
+
+(* the reader's 128-entry mode table (mainTable) is T.6 table 1: pass 0001, horizontal 001, vertical V0 1,
+   VR1..3 011 000011 0000011, VL1..3 010 000010 0000010 (offsets stored as 16-bit two's complement), extension
+   0000001, and seven zeros for the start of an EOL; the mode codes are a prefix code and every 7-bit window
+   starts with exactly one of them *)
+Theorem ccitt_mode_table : mode_table_ok = true.
+Proof. exact mode_table_check. Qed.
+Print Assumptions ccitt_mode_table.
+
+(* whole rows in two-dimensional coding: the statement at full strength.  Proved so far: the run decoder of the
+   horizontal mode (g4_full_run_rt, full_run_complete_iff, full_run_bound) and the mode table (ccitt_mode_table);
+   the executable model CCITT2D.v (pass / vertical / horizontal modes, EOFB, byte alignment, reference row handling)
+   is tied to the Go code by cross round trip and damaged code streams.  Missing: the induction over the mode
+   codes of a row (positions a0/a1/a2/b1/b2 in step, painted pixels = the row). *)
+Definition g4_rt_all : Prop := forall p rows,
+  (0 < g_cols p)%N -> Forall (row_ok p) rows ->
+  (g_maxrows p = 0%nat \/ (length rows <= g_maxrows p)%nat) ->
+  g4_dec p (g4_enc p (concat rows)) = Ok (concat rows).
